@@ -46,7 +46,7 @@ cocls::async<void> coro(cocls::mutex &mx, cocls::queue<int> &q, cocls::limited_q
     auto x = co_await sub.next(); (void)x;
 }
 void use() {
-    cocls::future<int> f; auto p = f.get_promise(); p(1); (void)f.ready(); f.wait();
+    cocls::future<int> f; auto p = f.get_promise(); p(1); (void)f.ready(); f.wait(); { bool hv = f.has_value(); (void)hv; auto hva = f.has_value(); (void)hva.await_ready(); (void)hva.await_resume(); }
     { cocls::promise<int> p2 = std::move(p); }
     cocls::mutex mx; { auto o = mx.try_lock(); } { cocls::mutex::ownership o2(mx.lock()); }
     auto g = gen(); (void)g.next();
@@ -167,6 +167,15 @@ OWNER_POLICY = {
                   "value": "after-acquire (caller learnt ready)", "result_of": "constructing thread", "operator<<": "constructing thread"},
         "atomic": {},
     },
+    # future<T>::has_value() awaiter: reaches the future through its reference member `_owner`; the state tag may be read only
+    # after ready() returned true (acquire load) or sync()/wait() returned
+    "future::awaitable_bool": {
+        "fields": ["_state", "_value", "_ptr_value", "_exception"],
+        "via": "_owner",
+        "entry": {"await_resume": "after-acquire (resumed / await_ready was true)"},
+        "atomic": {},
+        "member_calls": {"ready": "gain_on_true", "sync": "gain", "wait": "gain", "force_sync": "gain", "force_wait": "gain"},
+    },
     "reusable_storage_mtsafe": {
         "fields": ["_ptr", "_capacity"],
         "entry": {},
@@ -225,7 +234,7 @@ def strip_tpl(name):
 
 
 RECORD_KINDS = {"CXXRecordDecl", "ClassTemplateSpecializationDecl", "ClassTemplatePartialSpecializationDecl"}
-FUNC_KINDS = {"CXXMethodDecl", "FunctionDecl", "CXXConstructorDecl", "CXXDestructorDecl"}
+FUNC_KINDS = {"CXXMethodDecl", "FunctionDecl", "CXXConstructorDecl", "CXXDestructorDecl", "CXXConversionDecl"}
 
 
 def unwrap(n):
@@ -449,6 +458,7 @@ class MethodBuilder:
         self.policy = None        # owner-discipline mode (lock-free classes): OWNER_POLICY entry
         self.fn = None
         self.cond_eff = None      # while evaluating a branch condition: conditional effects found in it
+        self.cond_pol = (True, False)
 
     def emit(self, ev):
         n = self.g.new(ev)
@@ -513,8 +523,15 @@ class MethodBuilder:
                         if eff == "gain": self.emit(("Gain",))
                         elif eff == "drop": self.emit(("Release",))
                         elif eff != "none":
-                            if self.cond_eff is not None: self.cond_eff.append(eff)
+                            if self.cond_eff is not None: self.cond_eff.append((eff,) + self.cond_pol)
                             elif eff.startswith("drop"): self.emit(("Release",))
+                        return
+                    if self.policy.get("via") and bname == self.policy["via"] and op in self.policy.get("member_calls", {}) \
+                            and base.get("kind") in ("MemberExpr", "CXXDependentScopeMemberExpr"):
+                        for a in args: self.expr(a)
+                        eff = self.policy["member_calls"][op]
+                        if eff == "gain": self.emit(("Gain",))
+                        elif self.cond_eff is not None: self.cond_eff.append((eff,) + self.cond_pol)
                         return
                     if op in self.policy.get("drop_calls", {}).get(self.fn, []) and base.get("kind") != "CXXThisExpr":
                         for a in args: self.expr(a)
@@ -568,6 +585,22 @@ class MethodBuilder:
                 self.expr(c, write=(i == 0 and opname in ("operator=", "operator+=", "operator++", "operator--",
                                                           "operator<<", "operator[]")))
             return
+        if k == "BinaryOperator" and len(inner) == 2 and n.get("opcode") in ("&&", "||") and self.cond_eff is not None:
+            t, f = self.cond_pol
+            if n["opcode"] == "&&":    # operands are true wherever the conjunction is true
+                sub = (True if t is True else None, True if f is True else None)
+            else:                      # operands are false wherever the disjunction is false
+                sub = (False if t is False else None, False if f is False else None)
+            self.cond_pol = sub
+            self.expr(inner[0]); self.expr(inner[1])
+            self.cond_pol = (t, f)
+            return
+        if k == "UnaryOperator" and inner and n.get("opcode") == "!" and self.cond_eff is not None:
+            t, f = self.cond_pol
+            self.cond_pol = (None if t is None else not t, None if f is None else not f)
+            self.expr(inner[0])
+            self.cond_pol = (t, f)
+            return
         if k in ("BinaryOperator", "CompoundAssignOperator") and len(inner) == 2:
             if n.get("opcode") in WRITE_OPS:
                 self.expr(inner[1]); self.expr(inner[0], write=True)
@@ -593,28 +626,32 @@ class MethodBuilder:
             self.expr(c, write)
 
     def eval_cond(self, cond):
-        """walks a branch condition; returns (conditional effects, negated?)"""
+        """walks a branch condition; returns (conditional effects, unused).  Every conditional effect found in the condition
+        is recorded with the truth value of ITS operation on the true branch and on the false branch of the whole condition
+        (True / False / None = unknown), computed through !, && and ||."""
         if self.policy is None:
             self.expr(cond)
             return [], False
+        self.cond_eff = []
+        self.cond_pol = (True, False)
         c = unwrap(cond)
-        neg = False
+        pol = self.cond_pol
         while c.get("kind") == "UnaryOperator" and c.get("opcode") == "!" and c.get("inner"):
-            neg = not neg
+            pol = (None if pol[0] is None else not pol[0], None if pol[1] is None else not pol[1])
             c = unwrap(c["inner"][0])
         if c.get("kind") == "DeclRefExpr" and obj_name(c) in self.policy.get("cond_gain", {}).get(self.fn, []):
-            return ["gain_on_true"], neg
-        self.cond_eff = []
+            effs, self.cond_eff = [("gain_on_true", pol[0], pol[1])], None
+            return effs, False
         self.expr(cond)
         effs, self.cond_eff = self.cond_eff, None
-        return effs, neg
+        return effs, False
 
     def apply_eff(self, effs, neg, cond_true):
-        op_true = cond_true != neg
-        for e in effs:
-            if e == "drop_on_true" and op_true: self.emit(("Release",))
-            elif e == "gain_on_false" and not op_true: self.emit(("Gain",))
-            elif e == "gain_on_true" and op_true: self.emit(("Gain",))
+        for (e, on_t, on_f) in effs:
+            v = on_t if cond_true else on_f          # value of the operation on this branch, None = unknown
+            if e == "drop_on_true" and v is not False: self.emit(("Release",))       # unknown: conservative drop
+            elif e == "gain_on_false" and v is False: self.emit(("Gain",))
+            elif e == "gain_on_true" and v is True: self.emit(("Gain",))
 
     def is_this_field(self, n):
         nm = n.get("name") or n.get("member")
@@ -622,8 +659,12 @@ class MethodBuilder:
             return False
         b = n.get("inner")
         if not b:
-            return True      # implicit this in a dependent context
+            return not (self.policy and self.policy.get("via"))      # implicit this in a dependent context
         b = unwrap(b[0])
+        via = self.policy.get("via") if self.policy else None
+        if via is not None:
+            # fields of the object reached through the reference member `via` (this->_owner._state)
+            return b.get("kind") in ("MemberExpr", "CXXDependentScopeMemberExpr") and obj_name(b) == via
         return b.get("kind") == "CXXThisExpr"
 
     def access(self, n, write):
